@@ -101,6 +101,10 @@ class WatermarkPoolSink(PoolSink):
       if item.state <= ChannelState.Open:
         return item
       else:
+        # The sink died while it was idle, it no longer counts towards the
+        # size of the pool.
+        self._current_size -= 1
+        self._varz.size(self._current_size)
         self._DiscardSink(item)
     return None
 
